@@ -156,7 +156,7 @@ class Passes(Harness):
 def harnesses(tier):
     if tier == "quick":
         return [Probe(6, 3), Passes(5, 3)]
-    return [Probe(10, 5), Passes(8, 4)]
+    return [Probe(10, 5), Probe(15, 4), Passes(8, 4), Passes(11, 3)]
 
 
 def pre(res, tier):
